@@ -19,7 +19,7 @@ from typing import Callable, List
 import torch
 from packaging import version
 
-from .core import dtype_info
+from .core import axis_to_dim, dtype_info
 from .qactivation import quantize_activation
 from .qbytes import QBytesTensor
 from .qtensor import QTensor, qfallback
@@ -49,6 +49,36 @@ def register_qbytestensor_op(aten_ops: List[Callable]):
             _QBYTESTENSOR_OP_TABLE[aten_op] = partial(op, aten_op)
 
     return wrapper
+
+
+def qbytes_inplace_fallback(op, *args, **kwargs):
+    """Fallback for the operations that write into a QBytesTensor (in-place and `out=` variants)
+
+    The generic fallback applies the operation to dequantized tensors: the values written there would be lost.
+    Instead, the out-of-place variant of the operation is evaluated, and its result is quantized like the
+    destination (same qtype and axis, with a scale extended to the range of the result) and copied into it.
+    """
+    name = op.__name__
+    if name.endswith("_") and hasattr(torch.ops.aten, name[:-1]):
+        dest, functional = args[0], getattr(torch.ops.aten, name[:-1])
+    else:
+        dest, functional = kwargs.get("out"), op
+    if not isinstance(dest, QBytesTensor):
+        return qfallback(op, *args, **kwargs)
+    kwargs.pop("out", None)
+    result = functional(*args, **kwargs)
+    if not isinstance(result, QBytesTensor) or result.qtype != dest.qtype or result.axis != dest.axis:
+        if isinstance(result, QTensor):
+            result = result.dequantize()
+        result = result.expand(dest.size()).to(dest.dtype)
+        if dest.axis is None:
+            absmax = torch.max(torch.abs(result))
+        else:
+            absmax = torch.amax(torch.abs(result), dim=axis_to_dim(result, dest.axis), keepdim=True)
+        # The destination keeps its scale unless the result does not fit in its range
+        scale = torch.maximum(dest._scale, absmax / dtype_info(dest.qtype.dtype).max)
+        result = SymmetricQuantizer.apply(result, dest.qtype, dest.axis, scale)
+    return dest.copy_(result)
 
 
 def get_qbytestensor_op_dispatch(aten_op):
